@@ -65,11 +65,12 @@ def check_c03(tier, replay=None):
         rep.add_judged(agg)
     # every instance of the StoneSemMC scenario universes (legal and rule-breaking choices at every site, patches incl.)
     import checks_sem
-    jobs = [(scen, sh) for scen in checks_sem.SCENARIOS for sh in range(2)]
+    scens = checks_sem.SCENARIOS if tier == 'thorough' else ['P', 'E', 'R']      # quick: patches, examples/subtypes, routes
+    jobs = [(scen, sh) for scen in scens for sh in range(2)]
     res = run_shards('StoneSemMC', lambda j: checks_sem._cfg(j[0], j[1], 2, 'one'), jobs, 'semcheck.SemJudge', {'prop': 'C03'},
                      tlc_kwargs={'timeout': 6000})
     agg = merge(res)
-    rep.add_tlc('StoneSemMC/all-scenarios', agg, {'OrderMode': 'one', 'scenarios': checks_sem.SCENARIOS})
+    rep.add_tlc('StoneSemMC/scenarios', agg, {'OrderMode': 'one', 'scenarios': scens})
     rep.add_judged(agg)
     from checks_sem import lit_stage
     lit_stage(rep, 'C03', ('exlit', 'attr', 'annot', 'anndef', 'badtype') if tier == 'quick' else ('exlit', 'attr', 'docref', 'annot', 'anndef', 'badtype'))
